@@ -106,6 +106,90 @@ def shifted_query(rng, n):
             "sql": "SELECT %s FROM stream GROUP BY CountingWindow(%d)" % (", ".join(items), n), "rows": rows}
 
 
+def poison_query(rng, n):
+    """user code inside the statement panics on one value (3). A scalar function in an aggregate argument (vboom(v)): that row is skipped
+    by that aggregate only. A user aggregate whose Result panics (vboomsum(v)): the batch holding the row is dropped as a whole. Either
+    way the batches after it are aggregated over their own rows only - nothing is left behind in the aggregators"""
+    grouped = rng.random() < 0.4
+    drop = rng.random() < 0.5
+    fns = rng.sample(["count_star", "count", "sum", "avg", "min", "max", "sum", "max"], rng.choice([3, 4, 5]))
+    items, aggs = [], []
+    boom_at = rng.randrange(len(fns))
+    for k, fn in enumerate(fns):
+        if fn == "count_star":
+            items.append("count(*) AS a%d" % k); arg = {"k": "star"}
+        elif not drop and (k == boom_at or rng.random() < 0.3):
+            items.append("%s(vboom(v)) AS a%d" % (fn, k)); arg = {"k": "boomcol", "c": "v"}
+        else:
+            items.append("%s(v) AS a%d" % (fn, k)); arg = {"k": "col", "c": "v"}
+        aggs.append({"al": "a%d" % k, "fn": fn, "arg": arg, "p": 0})
+    if drop:
+        items.insert(rng.randrange(len(items) + 1), "vboomsum(v) AS ab"); aggs.append({"al": "ab", "fn": "sum", "arg": {"k": "col", "c": "v"}, "p": 0})
+    elif not any("vboom" in it for it in items):
+        items.append("sum(vboom(v)) AS ab"); aggs.append({"al": "ab", "fn": "sum", "arg": {"k": "boomcol", "c": "v"}, "p": 0})
+    nb = rng.choice([3, 4, 5])
+    bad = set(rng.sample(range(nb - 1), rng.choice([1, 1, 2]) if nb > 3 else 1))      # never the last batch: a clean batch always follows
+    rows, rid = [], 0
+    groups = ["a", "b"] if grouped else [None]
+    for b in range(nb):
+        vals = {g: [rng.choice([0, 1, 2, 5, 7, -4]) for _ in range(n)] for g in groups}
+        if b in bad:
+            g = rng.choice(groups)
+            vals[g][rng.randrange(n)] = 3
+        for k in range(n):
+            for g in groups:
+                rid += 1
+                r = {"id": rid, "v": vals[g][k]}
+                if g: r["g"] = g
+                rows.append(r)
+    sel = ", ".join(items)
+    if grouped:
+        sql = "SELECT g, %s FROM stream GROUP BY g, CountingWindow(%d)" % (sel, n)
+        meta = {"fam": "batch", "carrier": "counting", "n": n, "gcols": ["g"], "gout": ["g"], "aggs": aggs}
+    else:
+        sql = "SELECT %s FROM stream GROUP BY CountingWindow(%d)" % (sel, n)
+        meta = {"fam": "batch", "carrier": "counting", "n": n, "gcols": [], "gout": [], "aggs": aggs}
+    meta["poison"] = {"c": "v", "v": 30000, "drop": 1 if drop else 0}
+    return {"meta": meta, "sql": sql, "rows": rows}
+
+
+def twocol_query(rng, n):
+    """aggregates over TWO columns whose NULL / missing values fall on different rows, batches cut by a counting window or by a
+    GLOBAL WINDOW trigger: a row that is unusable for one aggregate still counts for all the others"""
+    glob = rng.random() < 0.5
+    fns = rng.sample(["count", "sum", "avg", "min", "max", "first_value", "last_value", "collect", "count_star", "sum", "max"], rng.choice([3, 4, 6]))
+    cols = ["v", "u"]
+    rng.shuffle(cols)
+    items, aggs = [], []
+    for k, fn in enumerate(fns):
+        c = cols[k % 2]
+        if fn == "count_star":
+            items.append("count(*) AS a%d" % k); arg = {"k": "star"}
+        else:
+            items.append("%s(%s) AS a%d" % (fn, c, k)); arg = {"k": "col", "c": c}
+        aggs.append({"al": "a%d" % k, "fn": fn, "arg": arg, "p": 0})
+    groups = rng.choice([["a"], ["a", "b"]])
+    rows, rid = [], 0
+    for b in range(3):
+        for k in range(n):
+            for g in groups:
+                rid += 1
+                r = {"id": rid, "g": g}
+                for c in ("v", "u"):
+                    x = rng.choice([None, MISSING, -3, 0, 2, 7, 7])
+                    if x != MISSING: r[c] = x
+                rows.append(r)
+    sel = ", ".join(items)
+    if glob:
+        sql = "SELECT g, %s FROM stream GROUP BY g, GLOBAL WINDOW TRIGGER WHEN COUNT(*) >= %d" % (sel, n)
+        meta = {"fam": "batch", "carrier": "global", "n": 0, "gcols": ["g"], "gout": ["g"], "aggs": aggs,
+                "pred": {"o": "cmp", "fn": "count_star", "arg": {"k": "star"}, "op": ">=", "lit": n * 10000}}
+    else:
+        sql = "SELECT g, %s FROM stream GROUP BY g, CountingWindow(%d)" % (sel, n)
+        meta = {"fam": "batch", "carrier": "counting", "n": n, "gcols": ["g"], "gout": ["g"], "aggs": aggs}
+    return {"meta": meta, "sql": sql, "rows": rows}
+
+
 def run(tier):
     res = vlib.Result("C03", tier)
     rng = random.Random(vlib.seed())
@@ -162,12 +246,17 @@ def run(tier):
         scen.append(mixed_query(rng, rng.choice([2, 3, 4])))
     for _ in range(40 if quick else 2000):
         scen.append(shifted_query(rng, rng.choice([3, 4, 5])))
+    for _ in range(40 if quick else 1500):
+        scen.append(poison_query(rng, rng.choice([2, 3, 4])))
+    for _ in range(80 if quick else 3000):
+        scen.append(twocol_query(rng, rng.choice([2, 3, 4])))
     seqfam.run_scenarios(res, scen, "TraceBatch", tag="agg", relayout_p=0.3, retype_p=0.3, rename_p=0.3)
     res.cov["exhaustive"] = not quick
     res.cov["distinct_nontrivial"] = len({json.dumps(s["rows"], sort_keys=True) + s["sql"] for s in scen})
     res.cov["rule"] = ("every value sequence of length <= %d over {NULL, missing, -3, 0, 2, 2, 7} as a batch (hence every permutation), for 4 argument shapes "
                        "(column, nested path, v*2+1, v+w), 17 functions in 3 query shapes, 1-2 groups, three consecutive batches per instance; "
-                       "plus seeded longer batches; distinct = distinct (SQL, rows)") % maxlen
+                       "plus seeded longer batches, aggregates over two columns with NULLs on different rows (counting and GLOBAL WINDOW carriers), and batches in which user code "
+                       "panics (a scalar function in an aggregate argument: row skipped; a user aggregate's Result: batch dropped) followed by clean batches; distinct = distinct (SQL, rows)") % maxlen
     res.assumptions = ASSUME
     for ml, mb in ([(3, 2)] if quick else [(3, 3), (4, 2)]):
         cfg = 'SPECIFICATION Spec\nCONSTANTS RawVals = {0, 3, 5} Off = 3 Groups = {"a","b"} MaxLen = %d MaxBatches = %d ResetOnBatchEnd = TRUE\nINVARIANTS DefinitionHolds NoLeak\nCHECK_DEADLOCK FALSE\n' % (ml, mb)
